@@ -41,10 +41,16 @@ class H(bf.Family):
         for inst in ('i1', 'i2'):
             if st[inst] == 'active' and n_ready:
                 out.append(('sched', 0, inst))
+                if inst == 'i1' or self.tier != 'quick':
+                    # a very short job: the worker's completion report is handled before the driver's own CALL schedule_job
+                    out.append(('sched', 0, inst, 'complete'))
+        reported = getattr(w, 'reported', ())
         for a in w.table('attempts'):
             inst = a['instance_name']
             if inst is None or st.get(inst) != 'active' or a['end_time'] is not None:
                 continue
+            if (a['job_id'], a['attempt_id']) in reported:
+                continue  # the worker's report was acknowledged: it will not be sent again (liveness must not rely on retries)
             for s in ('Success', 'Failed'):
                 out.append(('complete', a['job_id'], a['attempt_id'], inst, s, 10, 20))
         # the driver's CALL schedule_job can arrive after the instance it picked was preempted or after the job was
@@ -85,7 +91,9 @@ class H(bf.Family):
     def canon(self, w):
         d = w.mdb.store.dump(drop=bf.DROP | {'attempt_id', 'msec_mcpu'})
         jobs = {j['job_id']: j for j in w.table('jobs')}
-        live = sorted((a['job_id'], a['instance_name'], a['attempt_id'] == jobs[a['job_id']]['attempt_id'], a['start_time'] is not None)
+        reported = getattr(w, 'reported', ())
+        live = sorted((a['job_id'], a['instance_name'], a['attempt_id'] == jobs[a['job_id']]['attempt_id'], a['start_time'] is not None,
+                       (a['job_id'], a['attempt_id']) in reported)
                       for a in w.table('attempts') if a['end_time'] is None)
         for t in ('attempts', 'batch_bunches', 'jobs_telemetry', 'aggregated_job_resources_v3'):
             d.pop(t, None)
